@@ -8,6 +8,7 @@ from ..core import call_attr, calls_in, const, dotted, is_const, kwarg, norm, sl
 from . import c04
 
 EXPLANATION = [
+    'C05.buffer-geometry: in the three Read Buffer Size handlers of the virtual controller every return-parameter keyword is filled from the controller attribute of the same name.',
     'C05.queue-by-transport: host.Connection selects its packet queue by transport alone: host.le_acl_packet_queue for LE, host.acl_packet_queue for BR/EDR, on every path of __init__.',
     'C05.registered-before-emit: every Host handler that enters a link into connections / cis_links / sco_links / bis_links does so before any emit on the path (a listener that sends at once finds the handle).',
     'C05.fragment-forwarded: in Controller.on_hci_acl_data_packet every path on which the connection was found hands the packet to it: no filter in the dispatcher drops a fragment.',
@@ -608,7 +609,29 @@ def queue_by_transport(ctx):
         R.check(got == {want}, rule, f'bumble.host.Connection.__init__ | {"LE" if le else "BR/EDR"} link', f'uses {want}', f'a{"n LE" if le else " BR/EDR"} link may use {sorted(got)}: its PDUs are fragmented to the other pool\'s packet length and flow-controlled with the other pool\'s credits (fragments longer than the controller accepts for that transport)', p.loc(fn))
 
 
+def buffer_geometry(ctx):
+    """The virtual controller reports each buffer pool with its own numbers: in the Read Buffer Size handlers every
+    keyword of the return parameters is filled from the attribute of the same name (minus the `hc_` prefix)."""
+    R, p = ctx.r, ctx.p
+    rule = 'C05.buffer-geometry'
+    n = 0
+    for name in ('on_hci_read_buffer_size_command', 'on_hci_le_read_buffer_size_command', 'on_hci_le_read_buffer_size_v2_command'):
+        fn = p.find(f'bumble.controller.Controller.{name}')
+        if fn is None:
+            R.bad(rule, f'bumble.controller.Controller.{name}', 'anchor missing')
+            continue
+        for c in [x for x in ast.walk(fn) if isinstance(x, ast.Call) and call_attr(x).endswith('ReturnParameters')]:
+            for k in c.keywords:
+                if k.arg == 'status' or not (dotted(k.value) or '').startswith('self.'):
+                    continue
+                n += 1
+                attr = dotted(k.value)[5:]
+                R.check(attr == k.arg or 'hc_' + attr == k.arg, rule, f'bumble.controller.Controller.{name} | {k.arg}', f'from self.{attr}', f'{k.arg} is answered with self.{attr}: the host sizes its fragments / credits for this pool with another pool\'s number (fragments longer than the controller accepts on that transport)', p.loc(k.value))
+    R.check(n >= 8, rule, 'bumble.controller.Controller | buffer size answers', f'{n} fields', f'only {n} fields found')
+
+
 RULES = [
+    ('C05.buffer-geometry', buffer_geometry),
     ('C05.queue-by-transport', queue_by_transport),
     ('C05.registered-before-emit', registered_before_emit),
     ('C05.fragment-forwarded', fragment_forwarded),
